@@ -20,6 +20,25 @@ CHECKS = {
         note=TB + " Lexer tie-breaks inside lark are assumed."),
 }
 
+CHECKS["C01"] = dict(
+    category="other",
+    technique="operator dispatch matrix + interval extraction of the range decorators + sign/magnitude abstract evaluation + exception-effect analysis + def-use dependence",
+    text="Decides the structural clauses: every int/uint arithmetic cell (direct and reflected) is under the class's range check whose accepted "
+         "interval is exactly int64/uint64; division/remainder bodies truncate toward zero / take the dividend's sign for all sign combinations; "
+         "every exception class those cells raise is converted by the interpreter's rule method and by result(); each numeric result depends on both operands. "
+         "These hold for all operand pairs because they constrain every path of every operator body; magnitudes and IEEE results are CPython's.",
+    design_ref="DESIGN.md section 4 C01",
+    note=TB)
+CHECKS["C04"] = dict(
+    category="other",
+    technique="interprocedural exception-effect (may-raise) analysis over grammar-typed visitor dispatch and the operator dispatch matrix; stack-effect analysis of DumpAST",
+    text="Computes, by fixpoint over the call graph, every exception class that can leave Evaluator.evaluate, Transpiler.transpile/evaluate and "
+         "CELParser.parse, with parse-tree variables typed by the grammar (child counts, symbols, token types) so that shape assertions are proven dead. "
+         "One obligation per (boundary, exception class); open ones are listed in known_findings.json with a witness expression. Sound modulo the library "
+         "effect table; RecursionError and lark's positions are not decided.",
+    design_ref="DESIGN.md section 4 C04",
+    note=TB + " Host functions are assumed to raise only ValueError/TypeError.")
+
 PENDING = {}  # property id -> reason, for properties not claimed
 
 def main():
